@@ -82,6 +82,19 @@ theorem dropWhile_nil_not_mem {c : UInt8} {s : Bytes} (h : s.dropWhile (· != c)
       have := ih h
       simp only [List.mem_cons, not_or]; exact ⟨fun e => ha e.symm, this⟩
 
+/-! ### List.span -/
+
+theorem span_loop_eq {α : Type} (p : α → Bool) : ∀ (l acc : List α),
+    List.span.loop p l acc = (acc.reverse ++ l.takeWhile p, l.dropWhile p)
+  | [], acc => by simp [List.span.loop]
+  | a :: l, acc => by
+    by_cases h : p a = true
+    · simp [List.span.loop, h, span_loop_eq p l (a :: acc)]
+    · simp [List.span.loop, h]
+
+theorem span_eq {α : Type} (p : α → Bool) (l : List α) : l.span p = (l.takeWhile p, l.dropWhile p) := by
+  simp [List.span, span_loop_eq]
+
 /-! ### prefixes -/
 
 theorem isPrefixOfB_length : ∀ (p s : Bytes), isPrefixOfB p s = true → p.length ≤ s.length
